@@ -127,17 +127,20 @@ WIsZero(w) == \A i \in 1 .. 8 : w[i] = 0
 WSmall(w) == \A i \in 4 .. 8 : w[i] = 0                       \* < 2^24
 WVal(w) == w[1] + 256 * w[2] + 65536 * w[3]                   \* only for WSmall
 WOf(n) == <<n % 256, (n \div 256) % 256, (n \div 65536) % 256, (n \div 16777216) % 256, 0, 0, 0, 0>>
-Col(a, b, k) == LET I == {i \in 1 .. Len(a) : k + 1 - i \in 1 .. Len(b)}
-                    RECURSIVE S(_)
-                    S(J) == IF J = {} THEN 0 ELSE LET i == CHOOSE i \in J : TRUE IN a[i] * b[k + 1 - i] + S(J \ {i})
-                IN S(I)
+(* exact product of two limb strings: Len(a) + Len(b) limbs *)
+RECURSIVE ColSum(_, _, _, _)
+ColSum(a, b, k, i) == IF i > Len(a) THEN 0
+                      ELSE (IF k + 1 - i >= 1 /\ k + 1 - i <= Len(b) THEN a[i] * b[k + 1 - i] ELSE 0) + ColSum(a, b, k, i + 1)
 RECURSIVE MulFrom(_, _, _, _)
 MulFrom(a, b, k, c) == IF k > Len(a) + Len(b) THEN <<>>
-                       ELSE LET t == Col(a, b, k) + c IN <<t % 256>> \o MulFrom(a, b, k + 1, t \div 256)
-WMul(a, b) == MulFrom(a, b, 1, 0)                             \* exact product, Len(a)+Len(b) limbs
-(* item_count * type_size * repeat_count does not fit size_t *)
-SizeOverflows(ic, ts, rc) == LET pr == WMul(WMul(ic, WOf(ts)), rc) IN \E i \in 9 .. Len(pr) : pr[i] # 0
-TotalSize(ic, ts, rc) == SubSeq(WMul(WMul(ic, WOf(ts)), rc), 1, 8)
+                       ELSE LET t == ColSum(a, b, k, 1) + c IN <<t % 256>> \o MulFrom(a, b, k + 1, t \div 256)
+Trim(w) == LET nz == {i \in 1 .. Len(w) : w[i] # 0} IN
+           IF nz = {} THEN <<>> ELSE SubSeq(w, 1, CHOOSE i \in nz : \A j \in nz : j <= i)
+WMul(a, b) == LET ta == Trim(a)  tb == Trim(b) IN MulFrom(ta, tb, 1, 0)     \* leading zero limbs dropped first
+(* item_count * type_size * repeat_count (type_size < 256: one limb), 17 limbs *)
+Prod3(ic, ts, rc) == WMul(WMul(ic, <<ts>>), rc)
+Overflows64(pr) == \E i \in 9 .. Len(pr) : pr[i] # 0                \* does not fit size_t
+Low64(pr) == [i \in 1 .. 8 |-> IF i <= Len(pr) THEN pr[i] ELSE 0]
 
 RECURSIVE Repeat(_, _)
 Repeat(d, n) == IF n = 0 THEN <<>> ELSE d \o Repeat(d, n - 1)
@@ -255,8 +258,9 @@ Embed(data, r, app, p) ==
 EmbedArray(tid, data, ic, rc, r, app, p) ==
   LET ts == TypeSize(tid)
       empty == WIsZero(ic) \/ WIsZero(rc)
-      ovf == ~empty /\ SizeOverflows(ic, ts, rc)
-      tot == TotalSize(ic, ts, rc)
+      pr == Prod3(ic, ts, rc)
+      ovf == ~empty /\ Overflows64(pr)
+      tot == Low64(pr)
       mustFail == ~TypeValid(tid) \/ (TypeAssigned(tid) /\ ovf)
       mayFail == mustFail \/ ~TypeAssigned(tid) \/ (~empty /\ (~WSmall(tot) \/ ~Fits(WVal(tot))))
   IN /\ att
